@@ -61,13 +61,6 @@ Proof.
   apply S1. apply S1. exact W.
 Qed.
 
-(* ---- reachable nodes and candidates ---- *)
-Inductive reach : node -> list ptok -> node -> Prop :=
-| R_nil : forall n, reach n [] n
-| R_lit : forall n t c p m, lit_get t (node_lits n) = Some c -> reach c p m -> reach n (PLit t :: p) m
-| R_par : forall n c p m, node_param n = Some c -> reach c p m -> reach n (PAnon :: p) m
-| R_wild : forall n c p m, node_wild n = Some c -> reach c p m -> reach n (PFull :: p) m.
-
 Lemma has_pattern_reach : forall n p h, has_pattern n p h <-> exists m, reach n p m /\ node_hs m = Some h.
 Proof.
   intros n p h. split.
@@ -84,7 +77,6 @@ Proof.
 Qed.
 
 (* what matchNode can stop at: a node with a handler, or any full-wildcard node *)
-Definition ends_full (p : list ptok) : Prop := exists p0, p = p0 ++ [PFull].
 Definition cand (l : node) (p : list ptok) (n : node) : Prop :=
   reach l p n /\ (node_hs n <> None \/ ends_full p).
 
